@@ -1447,7 +1447,16 @@ def gt_gate(ctx: Ctx) -> RuleResult:
                       "filter; otherwise debug nodes run with RUN_DEBUG_NODES off", origin)
     # --- the gate itself
     ifs = [s for s in gate.node.body if isinstance(s, ast.If)]
-    r.require(len(ifs) == 1 and "RUN_DEBUG_NODES" in norm_src(ifs[0].test), "gate: flag test not recognised")
+    flag_ok = len(ifs) == 1 and "RUN_DEBUG_NODES" in norm_src(ifs[0].test)
+    if len(ifs) == 1 and not flag_ok:
+        # the flag handed in as a parameter: every caller passes the configuration's RUN_DEBUG_NODES for it
+        t_ = ifs[0].test.operand if isinstance(ifs[0].test, ast.UnaryOp) and isinstance(ifs[0].test.op, ast.Not) else ifs[0].test
+        pnames = [x.arg for x in gate.node.args.posonlyargs + gate.node.args.args + gate.node.args.kwonlyargs]
+        if isinstance(t_, ast.Name) and t_.id in pnames:
+            callers = ctx.callers_of(gate.qualname)
+            vals = [arg_for_param(gate.node, c_, t_.id, skip_self=True) for _, c_ in callers]
+            flag_ok = bool(callers) and all(v_ is not None and "RUN_DEBUG_NODES" in norm_src(v_) for v_ in vals)
+    r.require(flag_ok, "gate: flag test not recognised")
     flag_if = ifs[0]
     neg = isinstance(flag_if.test, ast.UnaryOp)
     on, off = (flag_if.orelse, flag_if.body) if neg else (flag_if.body, flag_if.orelse)
